@@ -426,6 +426,8 @@ fn run_random(def: &PropDef, r: &RandomDef, cfg: &RunCfg, listed: &BTreeSet<Stri
                         cases: per as u32,
                         failure_persistence: None,
                         max_shrink_iters: 60_000,
+                        // a failing case can be slow (bounded driver loops run to their guard): shrinking is cut off after a minute
+                        max_shrink_time: 60_000,
                         rng_seed: RngSeed::Fixed(derived),
                         ..Config::default()
                     };
